@@ -44,13 +44,31 @@ SEEDS = {
  "C18-2": ("C18", 2, "same slip as C01-1 (quarter-frame reserved bit), found independently: to_structured panics", "status 0xF1 with data byte 0x78..=0x7F", ["C18", "C01"], {}, ""),
  "C19-1": ("C19", 1, "hand-written TryFrom<u16> for U14 masks with !0x7fff: 16384..=32767 accepted", "serde feature and a raw value with bit 14 set", ["C19", "C04"], {}, ""),
  "C19-2": ("C19", 2, "deserialisation guard `value <= 127` only on the (7-bit, DataEntry) arm", "is_14_bit=false, data type increment/decrement, value > 127", ["C19"], {}, ""),
+ "C08-a1": ("C08", 1, "O(1) reset through a wrapping u16 counter, hand-written PartialEq over the effective progress", "an MSB, then exactly 65536 resets, then the matching LSB", ["C08", "C17"], {}, "MISSED at first. Now: reset-storm actions (256 / 65536 resets in one step, with and without traffic on another channel) near the initial state; C17 additionally compares the BEHAVIOUR of the reset scanner with a new one over all continuations of length <= 3, because a hand-written PartialEq makes reset()==new() vacuous", "SEED2"),
+ "C08-a2": ("C08", 2, "channel selected with a 3-bit mask in a status-byte fast path: channels c and c+8 share a slot", "two channels differing by exactly 8 in interleaved use", ["C15"], {"C08": "single-channel behaviour is correct on all 16 channels; the defect is an isolation defect"}, "", "SEED2"),
+ "C11-a1": ("C11", 1, "per-channel `channel` field filled by new() but not by the derived Default", "scanner created through Default and traffic on a channel other than 0", ["C11", "C17"], {}, "the products create their scanners through Default, and C17 compares new() with default()", "SEED2"),
+ "C11-a2": ("C11", 2, "lazy reset through a u16 generation counter (derived PartialEq)", "progress on a channel, 65536 resets without touching it, then a data byte", ["C11", "C17"], {}, "MISSED at first (and the search exploded: every reset made a new state). Now caught through the reset storm; explorations stop early once a violation is known", "SEED2"),
+ "C12-a1": ("C12", 1, "timeout compared in whole milliseconds (as_millis on both sides)", "a timeout with a sub-millisecond part and a poll between floor(T) and T", ["C12", "C13"], {}, "MISSED at first: all explored timeouts were whole milliseconds. Now a 1.5 ms timeout is explored as well (the mock clock still ticks in ms)", "SEED2"),
+ "C12-a2": ("C12", 2, "Control Change 121 (Reset All Controllers) resets the channel's scanner", "CC 121 between number selection and value delivery", ["C12", "C16"], {}, "caught because non-contributing controller numbers are expanded in the grammar product since round one", "SEED2"),
+ "C13-a1": ("C13", 1, "same slip as C12-a1, found independently", "sub-millisecond timeout", ["C13", "C12"], {}, "", "SEED2"),
+ "C13-a2": ("C13", 2, "scanner-wide cache of the oldest pending arrival, refreshed with find_map (first pending channel, not the oldest)", "three channels pending at once, the older byte on a higher channel index, a delivering poll in between (shortest history: 12 operations on three channels)", ["C15"], {"C13": "needs three active channels; the C13 product is single-channel"}, "caught by the three-channel isolation products added for exactly this class", "SEED2"),
+ "C14-a1": ("C14", 1, "elapsed time truncated to u32 milliseconds", "a pause of k*2^32 + d ms (d < timeout) before the first poll after the timeout", ["C14", "C13"], {}, "MISSED at first by C14 (C13 saw the as_millis truncation through the 1.5 ms timeout). Now long pauses of 2^32-2 and 2^32 ms are single actions and ages adjacent to a multiple of 2^32 (2^16 in thorough) are kept distinct in the state identity", "SEED2"),
+ "C14-a2": ("C14", 2, "lazy reset of the polling scanner through a u16 generation, hand-written PartialEq", "65536 resets during which a channel is untouched", ["C14", "C17"], {}, "MISSED at first; caught through reset storms (C14: P2 nothing before a complete number since reset) and the C17 behavioural differential", "SEED2"),
+ "C15-a1": ("C15", 1, "arrival stamps as u32 ms since a lazily taken scanner-wide epoch, saturating_sub on wrap", "another channel fed ~49.7 days earlier, a value arriving just before the wrap and polled just after", ["C15", "C13"], {}, "MISSED at first; needs the 2^32-2 ms pause and wrap-adjacent age classes", "SEED2"),
+ "C15-a2": ("C15", 2, "u16 generation counter with a dirty flag (resets without traffic do not count), hand-written PartialEq", "an MSB, 65536 x (message on another channel, reset), the LSB", ["C15"], {}, "MISSED at first; the reset storm WITH traffic on another channel exists for this one", "SEED2"),
+ "C16-a1": ("C16", 1, "(N)RPN scanner filters on `status & 0xB0 != 0xB0`: system messages are processed as Control Changes", "a system message whose first data byte is 6, 38 or 96..101", ["C16", "C15"], {}, "the quick data-byte grid for non-CC messages contains exactly these values", "SEED2"),
+ "C16-a2": ("C16", 2, "14-bit CC hot path compares only data byte 1 with the awaited LSB controller number", "stored MSB for controller N, then a non-CC channel message whose first data byte is N+32", ["C16"], {}, "caught in the quick tier because the grid contains 38 and 63 (N = 6, 31); the thorough tier uses the full 128 x 128 grid", "SEED2"),
+ "C17-a1": ("C17", 1, "reset() only resets the channel range [first..=last] touched since the last reset; `last` tracked wrongly", "three channels a < m < b with m fed after both", ["C17", "C15"], {}, "MISSED by the single-channel C17 products; C17 now also runs three-channel products with reset()==new() judged on the multi-channel scanner", "SEED2"),
+ "C17-a2": ("C17", 2, "with more than 8 channels touched, reset() takes a bulk path `*self = Default::default()` that loses the timeout", "non-zero timeout and at least 9 distinct channels fed before the reset", ["C17"], {}, "MISSED at first; the touch-all action (a non-contributing message on each of the 16 channels) exists for this one", "SEED2"),
  "C14-2": ("C14", 2, "inc/dec while an LSB is pending returns [None, Some(inc/dec)]", "number, CC 38, CC 96/97", ["C14"], {"C12": "an inc/dec after a lone LSB is outside the documented grammar"}, ""),
 }
 
 def main():
     root = '/verif/seeded'
-    for sid, (prop, n, what, needs, caught, missed, note) in sorted(SEEDS.items()):
-        src = '/tmp/wt/%s/SEED/%d' % (prop, n)
+    for sid, tup in sorted(SEEDS.items()):
+        (prop, n, what, needs, caught, missed, note) = tup[:7]
+        seeddir = tup[7] if len(tup) > 7 else 'SEED'
+        src = '/tmp/wt/%s/%s/%d' % (prop, seeddir, n)
         dst = os.path.join(root, sid)
         if os.path.isdir(src):
             os.makedirs(dst, exist_ok=True)
@@ -63,10 +81,12 @@ def main():
         elif not os.path.isdir(dst):
             print('missing', src); continue
         meta = {
-            "id": sid, "breaks_property": prop, "written_by": "independent sub-agent given only the property record and a scratch worktree",
+            "id": sid, "breaks_property": prop,
+            "written_by": ("independent sub-agent given only the property record and a scratch worktree" if seeddir == 'SEED' else
+                           "independent sub-agent given only the property record, a scratch worktree and the instruction to evade a bounded-exhaustive checker (short sequences, small byte domain, one or two channels, millisecond timeouts)"),
             "change": what, "needs_to_manifest": needs,
             "confirmed": {"suite_passes_with_change": True, "demo_fails_with_change": True, "demo_passes_without_change": True},
-            "what_i_ran": RAN.format(prop=prop, n=n, checks=' '.join(caught + list(missed.keys()))),
+            "what_i_ran": ("SEEDDIR=SEED2 " if seeddir != 'SEED' else "") + RAN.format(prop=prop, n=n, checks=' '.join(caught + list(missed.keys()))),
             "caught_by_quick_checks": caught, "also_run_but_silent": missed, "note": note,
         }
         with open(os.path.join(dst, 'meta.json'), 'w') as f:
